@@ -1,6 +1,7 @@
 package larking
 
 import (
+	"bytes"
 	"context"
 	"errors"
 	"io"
@@ -71,7 +72,15 @@ func (s *streamWS) SendMsg(v interface{}) error {
 		return err
 	}
 
-	if err := wsutil.WriteServerMessage(s.conn, ws.OpText, b); err != nil {
+	// One Write for the whole frame: RecvMsg, on another goroutine of the
+	// handler, answers pings on this connection, and a pong between a
+	// frame's header and its payload would be read as that payload.
+	var frame bytes.Buffer
+	frame.Grow(len(b) + ws.MaxHeaderSize)
+	if err := wsutil.WriteServerMessage(&frame, ws.OpText, b); err != nil {
+		return err
+	}
+	if _, err := s.conn.Write(frame.Bytes()); err != nil {
 		return err
 	}
 	return nil
